@@ -5,6 +5,8 @@ import (
 	"time"
 
 	"google.golang.org/protobuf/proto"
+
+	"github.com/smart-core-os/sc-golang/internal/testproto"
 	"google.golang.org/protobuf/types/known/fieldmaskpb"
 
 	"github.com/smart-core-os/sc-golang/pkg/masks"
@@ -151,6 +153,28 @@ func runUpd(c maskCase, out *hx.Out) {
 		})
 		out.Write(o)
 	}
+	// 2b. through the first Value.Set of a Value that was given no initial value (nothing stored = the empty
+	// message as far as the masks are concerned)
+	if proto.Equal(mini.Conc(c.Old), &testproto.TestAllTypes{}) {
+		o := base
+		o.Via = "value0"
+		o.Panic = hx.Catch(func() {
+			var ro []resource.Option
+			if !c.W.Nil {
+				ro = append(ro, resource.WithWritableFields(mini.ConcMask(c.W)))
+			}
+			v := resource.NewValue(ro...)
+			res, err := v.Set(mini.Conc(c.Wr), writeOpts(c)...)
+			o.Err = hx.Code(err)
+			if err == nil {
+				o.Res = mini.Abs(res)
+			}
+			if got := v.Get(); got != nil {
+				o.Post = mini.Abs(got)
+			}
+		})
+		out.Write(o)
+	}
 	// 3. through Collection.Update
 	{
 		o := base
@@ -197,6 +221,24 @@ func runProj(c maskCase, out *hx.Out) {
 		v := resource.NewValue(resource.WithInitialValue(mini.Conc(c.Msg)))
 		res := v.Get(resource.WithReadMask(fm))
 		o.Res, o.Post = mini.Abs(res), mini.Abs(v.Get())
+	})
+	// read options are applied in order, the last mask given is the one that counts (nil included)
+	emit("value.get.lastwins", func(o *projObs) {
+		v := resource.NewValue(resource.WithInitialValue(mini.Conc(c.Msg)))
+		other := mini.ConcMask(mini.Mask{Paths: [][]string{{"s"}}})
+		res := v.Get(resource.WithReadMask(other), resource.WithReadMask(fm))
+		o.Res, o.Post = mini.Abs(res), mini.Abs(v.Get())
+	})
+	emit("collection.list.lastwins", func(o *projObs) {
+		col := resource.NewCollection(resource.WithInitialRecord("a", mini.Conc(c.Msg)))
+		res := col.List(resource.WithReadPaths(&testproto.TestAllTypes{}, "default_int32"), resource.WithReadMask(fm))
+		if len(res) == 1 {
+			o.Res = mini.Abs(res[0])
+		} else {
+			o.Res.X = append(o.Res.X, "<list-len>")
+		}
+		after, _ := col.Get("a")
+		o.Post = mini.Abs(after)
 	})
 	emit("collection.get", func(o *projObs) {
 		col := resource.NewCollection(resource.WithInitialRecord("a", mini.Conc(c.Msg)))
